@@ -13,8 +13,8 @@
        structural facts about the output that are theorems are flatness (Props/C03.v), operand
        resolution (Props/C02.v), control flow and scoping (Props/C08.v), modifiers (Props/C06.v),
        expression values (Props/C07.v) and external gates (Props/C18.v). *)
-From Coq Require Import List Bool.
-From Verif Require Import Process.
+From Coq Require Import List Bool String.
+From Verif Require Import Aexp BGate PyVal Ast State GatesGen GateLib Unroll ExternalProofs Process.
 Import ListNotations.
 
 Theorem C01_lowering_preserves_process
@@ -53,6 +53,31 @@ Proof.
            branch_proper holds_proper lower lower_correct fuel l s).
 Qed.
 Print Assumptions C01_same_process_from_any_state.
+
+(* (3), the part that is a theorem: a call of a library gate emits, for every broadcast group of its resolved
+   operands in order, exactly the statements of the decomposition that GatesGen.v -- regenerated from maps.py on
+   every run -- holds for that name, at the evaluated parameters; C05 says that decomposition has the gate's
+   unitary, so hypothesis lower_correct of the two theorems above is what the code's tables provide *)
+Theorem C01_library_call_emits_the_table_decomposition call_rec name args qubits out s s' d np f arity :
+  lookup_op bitref name = Some (Some (d, np, f), arity) ->
+  visit_basic_gate false call_rec name args qubits false s = Ok (out, s') ->
+  exists params targets groups,
+    Forall2 (group_lowers f params) targets groups /\ out = List.concat groups.
+Proof. exact (basic_gate_emits_table_decomposition call_rec name args qubits out s s' d np f arity). Qed.
+Print Assumptions C01_library_call_emits_the_table_decomposition.
+
+(* ... and a call of a custom gate visits the members of the definition's body in order -- in reverse order, each
+   with `inv` appended, when the call is inverted -- with the call's parameter values substituted and the formal
+   qubits replaced by the actual ones, and emits the concatenation of what those visits emit *)
+Theorem C01_custom_call_expands_the_definition visit_rec call_rec name args qubits inverse out s s' :
+  visit_custom_gate false visit_rec call_rec name args qubits inverse s = Ok (out, s') ->
+  exists gd pmap qmap outs,
+    sget name (gates s) = Some gd /\
+    out = List.concat outs /\
+    Forall2 (fun op o => exists op' s1 s2, expands name pmap qmap inverse op op' /\ visit_rec op' s1 = Ok (o, s2))
+            (if inverse then rev (g_body gd) else g_body gd) outs.
+Proof. exact (custom_gate_expands_its_body visit_rec call_rec name args qubits inverse out s s'). Qed.
+Print Assumptions C01_custom_call_expands_the_definition.
 
 (* non-vacuity: a concrete instance -- states are integers, gates add, "up to phase" is equality;
    two basis steps implement one source gate; a measurement branches; a condition selects *)
